@@ -189,6 +189,29 @@ Definition terminal (e : env) (w : world) (now : time) (id : Z) (mk : Z -> meth)
   | (None, _) => (w, [])
   end.
 
+(* consume() that is given no time to wait: the head of the local buffer; since the fix recorded for C12 a normal consumer
+   nacks a message that expired while it was waiting there and looks at the next one *)
+Definition TAKE_FUEL : nat := 100.
+Fixpoint take_loop (fuel : nat) (e : env) (w : world) (now : time) (c : Z) : world * list mlog * Z :=
+  match fuel with
+  | O => (w, [], 0)
+  | S f =>
+      match cl_get c w with
+      | Some cs =>
+          match cs_buf cs with
+          | m :: r =>
+              let w0 := mkW (w_srv w) (cl_set c (mkCS (cs_q cs) (cs_cat cs) (cs_topics cs) (cs_max cs) (cs_ctag cs) (cs_paused cs)
+                                                      (cs_consuming cs) r) (w_cl w)) (w_tags w) (w_pending w) in
+              if cat_eqb (cs_cat cs) Normal && overdue_code e (a_pcode m) now then
+                let '(w1, l1) := terminal e w0 now (a_id m) Nack in
+                let '(w2, l2, res) := take_loop f e w1 now c in (w2, l1 ++ l2, res)
+              else (w0, [], a_id m)
+          | [] => (w, [], 0)
+          end
+      | None => (w, [], 0)
+      end
+  end.
+
 (* result of a take: the id handed out (0: none) *)
 Definition run_op (e : env) (w : world) (now : time) (o : rop) : world * list mlog * Z :=
   match o with
@@ -200,15 +223,7 @@ Definition run_op (e : env) (w : world) (now : time) (o : rop) : world * list ml
       let '(w1, l) := api_meths e w0 now [Qos mx; Consume (cat_queue q ct)] in (w1, l, 0)
   | RPut id topic q prio payload pcode =>
       let '(w1, l) := api_meths e w now [enqueue_meth e now id topic q prio payload pcode] in (w1, l, 0)
-  | RTake c =>
-      match cl_get c w with
-      | Some cs => match cs_buf cs with
-                   | m :: r => (mkW (w_srv w) (cl_set c (mkCS (cs_q cs) (cs_cat cs) (cs_topics cs) (cs_max cs) (cs_ctag cs) (cs_paused cs)
-                                                               (cs_consuming cs) r) (w_cl w)) (w_tags w) (w_pending w), [], a_id m)
-                   | [] => (w, [], 0)
-                   end
-      | None => (w, [], 0)
-      end
+  | RTake c => take_loop TAKE_FUEL e w now c
   | RAck id => let '(w1, l) := terminal e w now id Ack in (w1, l, 0)
   | RNack id => let '(w1, l) := terminal e w now id Nack in (w1, l, 0)
   | RReject id => let '(w1, l) := terminal e w now id Reject in (w1, l, 0)
